@@ -523,10 +523,11 @@ class VCGen:
             if nm == 'NONEVAL':
                 return Const('VAL_None', sort(VAL)), VAL
             dt0 = s.declared(nm)
-            if dt0 is not None and '__b_' + nm in st.env:
+            real_nm = s.cur.get('_alias', {}).get(nm, nm)       # the name the local goes by in the current source
+            if dt0 is not None and '__b_' + real_nm in st.env:
                 # a local that is not bound yet: contracts may mention it under a bound(...) guard; its value is arbitrary
-                st.env[nm] = (fresh(nm, dt0), dt0)
-                return st.env[nm]
+                st.env[real_nm] = (fresh(real_nm, dt0), dt0)
+                return st.env[real_nm]
             if nm == 'result' and 'result' in st.env:
                 return st.env['result']
             hn = s.cur.get('heapnames', {})
@@ -558,7 +559,14 @@ class VCGen:
             raise Unsupported(f'attribute {e.attr} of non-object {t}')
         ft = s.field_type(e.attr, t)
         if e.attr not in st.heap:
-            raise Unsupported(f'field {e.attr} not in heap of {s.cur["name"]}')
+            if s.specmode:
+                raise Unsupported(f'field {e.attr} not in heap of {s.cur["name"]}')
+            # the code READS a field the contract does not list: nothing on this path can have written it (stores to and callee
+            # effects on unlisted fields are refused), so it still holds its value at entry -- an unconstrained array
+            aft = ARR(INT, ft)
+            st.heap = dict(st.heap)
+            st.heap[e.attr] = Const(f'H_{e.attr}', sort(aft))
+            st.pc += s.wf_facts(st.heap[e.attr], aft)
         return st.heap[e.attr][o], ft
 
     def const_index(s, i):
@@ -1137,6 +1145,11 @@ class VCGen:
                 if nm == 'is_dict':
                     a_, _ = s.ev(e.args[0], st)
                     return s.pv().is_pD(a_), BOOL
+                if nm == 'cut':      # cut('<key>'): the value under that key of the dict literal assigned at the cut
+                    key_ = ast.literal_eval(e.args[0])
+                    if '__cut_' + key_ not in st.env:
+                        raise ContractError(f"cut({key_!r}): the statement at the cut does not assign a dict literal with that key")
+                    return st.env['__cut_' + key_]
                 if nm == 'bound':
                     b_ = st.env.get('__b_' + s.cur.get('_alias', {}).get(e.args[0].id, e.args[0].id))
                     return (b_[0] if b_ else BoolVal(True)), BOOL
@@ -1229,6 +1242,9 @@ class VCGen:
         raise Unsupported('call form')
 
     def resolve_function(s, nm):
+        view = s.cur.get('callee_contracts', {}).get(nm)      # a summary contract chosen by the caller's contract (listed as an assumption)
+        if view:
+            return view
         mod = s.cur['name'].split('.')[0]
         for q in (f'{mod}.{nm}',) + tuple(f'{m}.{nm}' for m in s.modules):
             if q in s.contracts:
@@ -1853,12 +1869,23 @@ class VCGen:
     def st_Pass(s, n, st):
         return [st]
 
+    def st_Assert(s, n, st):
+        """assert c: raises AssertionError unless c holds -- a safety obligation like any other operation that can raise"""
+        c, tc = s.ev(n.test, st)
+        s.safe(st, 'assert', s.truthy(c, tc, st), n.lineno)
+        return [st]
+
     def st_Assign(s, n, st):
         if len(n.targets) != 1:
             raise Unsupported('chained assignment')
         cut = s.cur.get('cut_before_assign')
         if cut and isinstance(n.targets[0], ast.Name) and s.cur.get('_alias_rev', {}).get(n.targets[0].id, n.targets[0].id) == cut:
             # the contract covers the function up to this statement (the rest is outside this contract's scope)
+            if isinstance(n.value, ast.Dict) and all(isinstance(k_, ast.Constant) and isinstance(k_.value, str) for k_ in n.value.keys):
+                # the assigned value is a dict literal with constant keys: its VALUES are evaluated (they are what the function goes on to
+                # use) and are visible to the cut conditions as cut('<key>'), whatever temporaries the code does or does not use for them
+                for k_, v_ in zip(n.value.keys, n.value.values):
+                    st.env['__cut_' + k_.value] = s.ev(v_, st)
             for k, post in enumerate(s.cur.get('ensures_at_cut', [])):
                 s.oblige(st, f'at-cut#{k}', s.spec_eval(post, st, 1), n.lineno, 'post')
             s.frame_obligations(st, n.lineno, 'cut')
@@ -1997,7 +2024,7 @@ class VCGen:
         mod = c.get('modifies', {})
         old = st.old
         for f in st.heap:
-            if f.startswith('__'):
+            if f.startswith('__') or f not in old.heap:       # (a field only ever read, added lazily: see ev_Attribute)
                 continue
             if f not in mod:
                 if st.heap[f] is not old.heap[f]:
@@ -2116,6 +2143,25 @@ class VCGen:
         if '__b_' + it.optional_vars.id in st.env:
             st.env['__b_' + it.optional_vars.id] = (BoolVal(True), BOOL)
         return s.block(n.body, st)
+
+    def bi_open(s, e, st):
+        """f = open(path, mode) outside a with statement: the same ghost file"""
+        if len(e.args) != 2 or e.keywords:
+            raise Unsupported('open form')
+        path, tp = s.ev(e.args[0], st)
+        mode, tm = s.ev(e.args[1], st)
+        if tp != STR or tm != STR:
+            raise Unsupported('open arguments')
+        st.env['__path'] = (path, STR)
+        st.env['__mode'] = (mode, STR)
+        st.env['__written'] = (empty(LIST(STR)), LIST(STR))
+        st.env['__content'] = (StringVal(""), STR)
+        return IntVal(1), FILE
+
+    def meth_close(s, e, o, ot, st):
+        if ot != FILE:
+            raise Unsupported('close on a non-file')
+        return BoolVal(False), NONE
 
     def meth_write(s, e, o, ot, st):
         if ot != FILE:
@@ -2766,8 +2812,14 @@ class VCGen:
             if is_new:
                 rv, rt = cal.env[params[0][0]]
             post.env['result'] = (rv, rt)
+            # a callee whose postcondition speaks about the file it opened: the ghost file of the caller is the callee's afterwards
+            ghost_file = [g for g in ('__path', '__mode', '__content') if any(g in str(p) for p in k.get('ensures', []))]
+            for g in ghost_file:
+                post.env[g] = (fresh(g.strip('_'), STR), STR)
             for p in k.get('ensures', []):
                 post.pc.append(s.spec_eval(p, post, -1))
+            for g in ghost_file:
+                st.env[g] = post.env[g]
             st.pc, st.heap, st.lheap, st.alloc_l, st.alloc_o = post.pc, post.heap, post.lheap, post.alloc_l, post.alloc_o
             outs.insert(0, ('ok', st, rv, rt))
         finally:
